@@ -69,8 +69,7 @@ type Listener struct {
 var errRefused = errors.New("connection refused")
 
 func (l *Listener) Accept() (net.Conn, error) {
-	vsched.Point("accept")
-	vsched.Block("accept", func() bool { return len(l.queue) > 0 || l.closed }, 0)
+	vsched.PointWhen("accept", func() bool { return len(l.queue) > 0 || l.closed }, 0)
 	if l.closed {
 		return nil, &net.OpError{Op: "accept", Net: "mem", Err: net.ErrClosed}
 	}
@@ -138,24 +137,22 @@ type Conn struct {
 func (c *Conn) ID() int { return c.id }
 
 func (c *Conn) Read(p []byte) (int, error) {
-	vsched.Point("read")
-	if c.closed {
-		return 0, &net.OpError{Op: "read", Net: "mem", Err: net.ErrClosed}
-	}
 	var dl int64
 	if !c.rdl.IsZero() {
 		dl = int64(c.rdl.Sub(vtime.Epoch()))
 		if dl <= 0 {
 			dl = 1
 		}
-		if vsched.NowNs() >= dl {
-			return 0, &net.OpError{Op: "read", Net: "mem", Err: os.ErrDeadlineExceeded}
-		}
 	}
+	pastDeadline := dl > 0 && vsched.NowNs() >= dl
+	ready := func() bool { return len(c.rbuf) > 0 || c.peerClosed || c.closed }
 	if c.side == "cli" {
-		vsched.BlockH("read", func() bool { return len(c.rbuf) > 0 || c.peerClosed || c.closed }, dl)
+		vsched.PointWhenH("read", ready, dl)
 	} else {
-		vsched.Block("read", func() bool { return len(c.rbuf) > 0 || c.peerClosed || c.closed }, dl)
+		vsched.PointWhen("read", ready, dl)
+	}
+	if pastDeadline && !c.closed {
+		return 0, &net.OpError{Op: "read", Net: "mem", Err: os.ErrDeadlineExceeded}
 	}
 	switch {
 	case c.closed:
